@@ -351,6 +351,23 @@ def build_pipe(r, tier):
                                      "func f(k, v) { return {toupper(k): v} } $y4 = joink(apply({\"q\": $i}, f), \",\")", "func f(k, v) { return {k . k: v} } $y3 = joink(apply({\"q\": $i}, f), \",\")"]]
         verbs = r.sample(same, r.choice([2, 2, 3]))
     if r.chance(0.12):
+        # a stage that inserts, removes or moves fields, then a stage that consults the field count or positions: the
+        # record a stage hands on must be as consistent as one read afresh from a pipe
+        changer = r.choice([["nest", "--explode", "--values", "--across-fields", "-f", r.choice(["b", "x", "y", "a"]), "--nested-fs", r.choice([";", "a", "e", "."])],
+                            ["nest", "--explode", "--pairs", "--across-fields", "-f", r.choice(["b", "y"]), "--nested-fs", ";", "--nested-ps", ":"],
+                            ["nest", "--explode", "--values", "--across-records", "-f", r.choice(["b", "y"]), "--nested-fs", r.choice([";", "e"])],
+                            ["reorder", "-e", "-f", "a"], ["reorder", "-f", r.choice(["y", "x,i"])], ["cut", "-x", "-f", r.choice(["a", "y", "b,x"])], ["cut", "-o", "-f", "y,a"],
+                            ["rename", "-r", "^(.)$,f_\\1"], ["rename", "y,a"], ["sec2gmt", "i"], ["fill-down", "-a"], ["unsparsify"], ["regularize"],
+                            ["sort-within-records"], ["template", "-f", "y,zz,a"], ["sparsify"], ["having-fields", "--at-least", "a"], ["altkv"] if False else ["label", "q,r,s"]])
+        user = r.choice([["put", "$nf = NF"], ["put", "$last = $[[[NF]]]"], ["put", "$lastname = $[[NF]]"], ["put", "$nf = NF; $nf2 = NF"], ["put", "unset $[[1]]; $nf = NF"],
+                         ["put", "$*  = mapsum({\"nf\": NF}, $*)"], ["put", "for (k, v in $*) { $n = NF } "], ["filter", "NF > 3"], ["put", "$[[[1]]] = NF"]])
+        recs = gen.gen_records(r, r.choice([1, 3, 8, 25]), sparse=r.chance(0.3))
+        recs = [rec + [("zlast", r.choice(["p;q;r", "s", "t;u", "a:1;b:2", "e.f"]))] if r.chance(0.6) else rec for rec in recs]
+        if changer[0] == "nest" and r.chance(0.6):
+            changer[changer.index("-f") + 1] = "zlast"
+        verbs = [changer, user] + ([r.choice([["regularize"], ["sort-within-records"], ["unsparsify"], ["cat"]])] if r.chance(0.3) else [])
+        return {"kind": "pipe", "verbs": verbs, "text": gen.to_json(recs), "cseed": r.randint(1, 1 << 40), "nconf": 2 if tier == "quick" else 4}
+    if r.chance(0.12):
         # map- and array-valued fields (JSON carries them through a pipe unchanged): a stage that hands a collection from
         # one record to another, then stages that edit collections in place
         c = gen.alias_coll_case(r, tier)
